@@ -79,7 +79,7 @@ type state struct {
 func init() {
 	core.Register(&core.Prop{
 		ID: "C09",
-		Rule: "ellipsoid_pairs phase: the complete square of built-in ellipsoid names (30% with the source replaced by a custom ellipsoid whose 1/f is within 1e-9..1e-5 of the destination's), both sides geographic with an all-zero +towgs84, 4 positions, against the geocentric reference chain (5 mm) and live proj4js (1e-9 deg); live phase: case = one generated projected definition (every projection form, ellipsoid by built-in name / a+b / a+rf, datum none / named / 3- and 7-term towgs84, units m/ft/us-ft/to_meter, prime meridian by name or value) with 4 positions in its usable region, transformed geographic->projected, projected->geographic and (when both sides name a datum) projected->projected onto a second definition on another datum, by the Go port (fresh SR objects and transformer per call) and by proj4js 2.3.12 running under node; agreement 1e-4 m (/to_meter) or 1e-9 deg; datum-less definitions only against the geographic system on the same ellipsoid; " +
+		Rule: "ellipsoid_pairs phase: the complete square of built-in ellipsoid names (30% with the source replaced by a custom ellipsoid whose 1/f is within 1e-9..1e-5 of the destination's), both sides geographic with an all-zero +towgs84, 4 positions, against the geocentric reference chain (5 mm) and live proj4js (1e-9 deg); live phase: case = one generated projected definition (every projection form, ellipsoid by built-in name / a+b / a+rf, datum none / named / 3- and 7-term towgs84, units m/ft/us-ft/to_meter, prime meridian by name or value) with 4 positions in its usable region, transformed geographic->projected, projected->geographic and (when both sides name a datum) projected->projected onto a second definition on another datum, and in half of the cases onto a 'twin' of itself (same projection, ellipsoid, datum and units, one optional clause - x_0, y_0, lat_0, lat_ts or pm - written on one side only; either direction), by the Go port (fresh SR objects and transformer per call) and by proj4js 2.3.12 running under node; agreement 1e-4 m (/to_meter) or 1e-9 deg; datum-less definitions only against the geographic system on the same ellipsoid; " +
 			"corpus phase: the same comparison against recorded proj4js outputs (fixed seeds) so that the check does not depend on node; formulas phase: forward projections vs independently written Snyder / Karney-Krueger / Helmert reference formulas within 5 mm; tables phase: every built-in ellipsoid, datum, prime-meridian and unit name parsed and compared with proj4js's constants; " +
 			"an evaluation is one point (or one table entry) compared; non-trivial = scenario with a datum shift or a non-metre unit or a named prime meridian; distinct by scenario hash",
 		Assumptions: []string{"the live oracle needs node (present in this image); without it the run uses the recorded corpus and says so in coverage.oracle", "non-default +axis excluded (proj4js returns null for it); covered by C10", "points where proj4js itself yields no finite result are counted, not judged"},
@@ -339,6 +339,39 @@ func GenChain(r *crsgen.R, fwd func(s *Scenario) []*[2]float64) []Scenario {
 			cc.Out = fwd(&cc)
 			out = append(out, cc)
 			break
+		}
+	}
+	// twin: the same projection on the same datum with one optional clause left out / written
+	// (false origin, latitude of origin or of true scale, prime meridian). Nothing but that one
+	// parameter differs, and in one of the two definitions it is not set at all
+	if r.Chance(0.5) {
+		if t, what := crsgen.Twin(r, d); t != nil {
+			ok := true
+			for _, gp := range greenwich {
+				if math.Abs(gp[0]-t.PMDeg) > 179.5 {
+					ok = false
+				}
+			}
+			if ok {
+				tw := Scenario{Kind: "twin", Src: d.String(), Dst: t.String(), DstToMeter: t.ToMeter, Pts: ppts, Label: d.Proj + "->twin(" + what + ")"}
+				if r.Bool() {
+					// the other direction: feed the twin with proj4js's own twin coordinates
+					fw := Scenario{Kind: "geo2proj", Src: gdef, Dst: t.String(), DstToMeter: t.ToMeter, Pts: pts}
+					if o := fwd(&fw); o != nil {
+						var tp [][2]float64
+						for _, q := range o {
+							if q != nil {
+								tp = append(tp, *q)
+							}
+						}
+						if len(tp) > 0 {
+							tw = Scenario{Kind: "twin", Src: t.String(), Dst: d.String(), DstToMeter: d.ToMeter, Pts: tp, Label: "twin(" + what + ")->" + d.Proj}
+						}
+					}
+				}
+				tw.Out = fwd(&tw)
+				out = append(out, tw)
+			}
 		}
 	}
 	return out
